@@ -92,6 +92,11 @@ func (h *Hub) HandleShipHandshakeStateUpdate(ski string, state model.ShipState) 
 		// acting upon the new state is safe
 		go func() {
 			<-time.After(time.Millisecond * 500)
+			// every update is delivered by a goroutine of its own: if a newer state has been stored
+			// meanwhile, its own update is on the way and this older one must not arrive after it
+			if service.ConnectionStateDetail() != pairingDetail {
+				return
+			}
 			h.hubReader.ServicePairingDetailUpdate(ski, pairingDetail)
 		}()
 	}
